@@ -22,11 +22,11 @@ CONFIG = {
     "bsv_cmd": "c12",
     "technique": "Lean 4 proofs over a writer-interleaving model and a session/handler-skeleton model of the DAP adapter (all 43 commands of dispatch, cancellation bookkeeping, thread-cache diff, progress ids) + acceptor correspondence with the real DebugSession driven in-process over a mock transport + independent wire oracle",
     "level_text": "Theorems for ALL request histories (induction over the history, invariants linking the session state to wire monitors) and ALL schedules of the three transport writers (induction over the schedule) about hand-written executable models of DebugSession::run/dispatch/drain_events/consume_cancellation/refresh_threads_with_events and of the seq-allocation/transport-write steps; the session model is tied to the real adapter on every run by replaying grammar-derived request histories (every command of dispatch with valid, missing, ill-typed, absent arguments; repeated, out of order, pipelined behind a running request; in every session phase; cancel ahead of / after / of non-existent requests and of progress ids; stepping over thread creation) against the real DebugSession in forked workers and comparing the canonicalised wire per request (thread ids and progress ids included); the writer model is tied by reconstructing the schedule from the recorded allocation log and comparing sequence numbers in wire order; an independent wire checker re-decides the clauses.",
-    "level_note": "Partial: the full statements C12_one_response, C12_seq_is_wire_order, C12_silent_after_terminated, C12_thread_events are FALSE of the unchanged code (counterexamples proved in Lean and replayed on the real adapter: known_findings.txt, corpus/C12); proved are the _partial versions under named hypotheses. Debuggee / debugger-library outcomes (stop/exit, the thread list the debugger reports to a refresh, success of a fallible debugger call, number of frames without line info) enter the model as observed hints; what the adapter owes (responses, thread events from the cache diff, cancellation, progress ids, lifecycle) is computed by the model. Scheduler = arbitrary interleaving of atomic steps (the real scheduler is only sampled). A quick run samples about a third of the (command, phase) cells: the distribution is in correspondence.distribution (`cp.<command>.<phase>`, `cm.<command>.<mutation>`, `cmd.<command>` = 0 for a command not sent in this run).",
+    "level_note": "Full statements C12_one_response, C12_seq_is_wire_order, C12_silent_after_terminated are proved over the 44-command model for the repaired code (the three defects of the code as found - `continue` answered twice, sequence numbers taken before the transport lock, `initialized` and forwarder output after `terminated` - are fixed in the repository: known_findings.txt `fixed:` lines; the former counterexamples stay as corpus replays). Partial: C12_thread_events is FALSE of the code (counterexample proved in Lean and replayed on the real adapter: known_findings.txt, corpus/C12); proved is the _partial version under a named hypothesis. The forwarders' part of `nothing after terminated` is proved on a latch model of the writers that is read from the code (tied textually by the table extractor, not by the correspondence run) and re-decided by the wire oracle; `no output lost` is decided by the wire oracle only. Debuggee / debugger-library outcomes (stop/exit, the thread list the debugger reports to a refresh, success of a fallible debugger call, number of frames without line info) enter the model as observed hints; what the adapter owes (responses, thread events from the cache diff, cancellation, progress ids, lifecycle) is computed by the model. Scheduler = arbitrary interleaving of atomic steps, a writer scheduled while another holds the transport lock is blocked (the real scheduler is only sampled). A quick run samples about a third of the (command, phase) cells: the distribution is in correspondence.distribution (`cp.<command>.<phase>`, `cm.<command>.<mutation>`, `cmd.<command>` = 0 for a command not sent in this run).",
     "runs": {"quick": [{"n": 420}], "thorough": [{"n": 5000, "timeout": 9000}]},
     "shrinkable": True,
     "assumptions": [
-        "the three writers' steps `fetch_add` and `lock+write_message` are atomic and the only accesses to the counter/transport (read from session/mod.rs)",
+        "the three writers' steps `lock+next_seq` and `write_message+unlock` are atomic and the only accesses to the counter/transport (read from session/mod.rs; the extractor checks that `next_seq` is the only `fetch_add` and that every call site locks the transport first)",
         "debuggee behaviour (stop reason, exit, the thread list the debugger returns to refresh_threads_with_events - read through the add-only `verif` thread probe, or from the `threads` response when the probe did not fire -, whether a fallible debugger call succeeded, how many frames needed a disassembly source) is an input of the session model, taken from the observed run",
         "the mock transport never fails a write (transport errors end the session by design: `drain_events()?` in run)",
         "a session whose worker stalls (no answer for 40 s) is run a second time; only a stall that repeats is reported as an adapter hang",
